@@ -15,7 +15,7 @@ import numpy as _np
 
 from . import terms as T
 from .terms import Sym, Unsupported, to_q
-from .rt import norm, exact_array, _vcpow, _vcdiv, imag_unit, _EXACT
+from .rt import norm, exact_array, _vcpow, _vcdiv, imag_unit, _EXACT, CQ, FloatDomainError
 
 USED = set()  # names of shim contracts exercised in this process (reported as trusted base)
 
@@ -119,11 +119,15 @@ def _has_obj(x):
     return False
 
 
-def _scalar_fn(name, symf, exactf=None):
+def _scalar_fn(name, symf, exactf=None, real_domain=None):
     def one(x):
         if hasattr(x, "_vc_func"):
             return x._vc_func(name)
+        complex_typed = isinstance(x, CQ) or isinstance(x, complex)
         x = norm(x)
+        if real_domain is not None and isinstance(x, _EXACT) and not isinstance(x, bool) and not complex_typed and not real_domain(Fraction(x)):
+            _used(f"np.{name} of a float-typed argument outside the real domain is nan (numpy semantics)")
+            raise FloatDomainError(f"np.{name}({Fraction(x)}) on a float-typed argument: numpy returns nan here (the argument was not made complex)")
         if isinstance(x, _EXACT) and exactf is not None:
             r = exactf(Fraction(x))
             if r is not None:
@@ -147,8 +151,8 @@ def _scalar_fn(name, symf, exactf=None):
 
 
 exp = _scalar_fn("exp", lambda s: T.app("exp", s), lambda q: Fraction(1) if q == 0 else None)
-log = _scalar_fn("log", lambda s: T.app("ln", s), lambda q: Fraction(0) if q == 1 else None)
-sqrt = _scalar_fn("sqrt", lambda s: T.app("sqrt", s), lambda q: T.exact_root(q, Fraction(1, 2)) if q >= 0 else None)
+log = _scalar_fn("log", lambda s: T.app("ln", s), lambda q: Fraction(0) if q == 1 else None, real_domain=lambda q: q > 0)
+sqrt = _scalar_fn("sqrt", lambda s: T.app("sqrt", s), lambda q: T.exact_root(q, Fraction(1, 2)) if q >= 0 else None, real_domain=lambda q: q >= 0)
 arctan = _scalar_fn("arctan", lambda s: T.app("atan", s), lambda q: Fraction(0) if q == 0 else None)
 sin = _scalar_fn("sin", lambda s: T.app("sin", s), lambda q: Fraction(0) if q == 0 else None)
 cos = _scalar_fn("cos", lambda s: T.app("cos", s), lambda q: Fraction(1) if q == 0 else None)
